@@ -191,7 +191,7 @@ def envelope_map(model: Model, ex, c: str, content) -> Dict[str, str]:
     res = ex.rres[c]
     num = ex.class_tag_number(c)
     fi = ex.dispatch[num]
-    cfi = model.functions.get(content.func) if content is not None else None
+    cfi = model.functions.get(content.func) if content is not None else model.functions.get(ex.envelope.func)
     call = None
     if cfi is not None:
         for n in walk_no_nested(cfi.node):
@@ -254,8 +254,6 @@ def purity(model: Model, run: Run, ex) -> None:
                     bad = "global/nonlocal state"
                 elif isinstance(x, ast.Call) and norm(x.func) in ("object.__setattr__", "setattr"):
                     bad = f"`{norm(x)[:60]}`"
-                elif isinstance(x, ast.Name) and isinstance(x.ctx, ast.Load) and x.id.isupper() and x.id.startswith("_") and model.resolve_name(fi.module, x.id) and model.resolve_name(fi.module, x.id).startswith(fi.module + "."):
-                    bad = f"module-level state `{x.id}`"
                 elif isinstance(x, ast.Call) and isinstance(x.func, ast.Attribute) and x.func.attr not in ("encode",) and isinstance(x.func.value, ast.Name) and x.func.value.id not in [p for p in fi.params()] + [w.id for w in ast.walk(fi.node) if isinstance(w, ast.Name) and isinstance(w.ctx, ast.Store)]:
                     q = model.resolve_name(fi.module, x.func.value.id)
                     if q and q.startswith(fi.module + ".") and q not in model.classes:
@@ -266,24 +264,33 @@ def purity(model: Model, run: Run, ex) -> None:
     run.floor("writer methods checked for purity", n, 25)
 
 
-SANCTIONED_SETATTR = {
-    ("unpack_ldap_control", "value"): "a decoded control always exposes its raw value octets (the one asymmetry the property permits)",
-    ("_unpack_ldap_message_content", "name"): "MS-ADTS notice of disconnection carries responseName at envelope level; injected only when the response has none",
-    ("unpack_ldap_message", "name"): "same as above (before the content helper was split out)",
+SANCTIONED = {
+    ("sansldap._controls", "value"): "a decoded control always exposes its raw value octets (the one asymmetry the property permits)",
+    ("sansldap._messages", "name"): "MS-ADTS notice of disconnection carries responseName at envelope level; injected only when the ExtendedResponse has none",
 }
 
 
 def post_decode_mutation(model: Model, run: Run) -> None:
     """W14: decoded values are not modified after construction, except for the two reviewed injections."""
+    from .c05 import may_raise
+    mr = may_raise(model)
+    mr.escapes(f"{MSG}.unpack_ldap_message", None)
+    decode_side = {k[0] for k in mr.summ if k[0] in model.functions and not model.functions[k[0]].module.endswith("_session")}
     n = 0
-    for fq, fi in model.functions.items():
-        if isinstance(fi.node, ast.Lambda) or not (fi.name.startswith("_unpack") or fi.name.startswith("unpack")):
+    for fq in sorted(decode_side):
+        fi = model.functions[fq]
+        if isinstance(fi.node, ast.Lambda) or fi.module == "sansldap.asn1":
             continue
         for c in walk_no_nested(fi.node):
             if isinstance(c, ast.Call) and norm(c.func) in ("object.__setattr__", "setattr") and len(c.args) == 3:
                 n += 1
                 fld = c.args[1].value if isinstance(c.args[1], ast.Constant) else None
-                ok = (fi.name, fld) in SANCTIONED_SETATTR
+                ok = (fi.module, fld) in SANCTIONED
+                if ok and fld == "name":
+                    # only under `isinstance(msg, ExtendedResponse) ... and not msg.name`
+                    from .c06 import enclosing_tests
+                    tests = " ".join(norm(t) for t in enclosing_tests(fi.node, c))
+                    ok = "ExtendedResponse" in tests and "not " in tests and ".name" in tests
                 run.ob("W14-no-post-decode-mutation", ok, {"function": fi.name, "field": fld})
                 if not ok:
                     run.fail(Finding("W14-no-post-decode-mutation", fq, f"{norm(c)[:80]}", f"{fi.name} overwrites `{fld}` of a decoded value after it was constructed: the decoded message no longer equals the one that was encoded", model.loc(fi.module, c)))
